@@ -1,6 +1,7 @@
 import Driver.Util
 -- one import per component (keep sorted; one line each so that merges stay trivial)
 import Driver.Ops.Attempt
+import Driver.Ops.Client
 import Driver.Ops.Data
 import Driver.Ops.Disk
 import Driver.Ops.Envelope
@@ -16,6 +17,7 @@ def dispatch (line : String) : String :=
   | ["ping"] => "pong"
   -- one line per component
   | "attempt" :: rest => attemptOp rest
+  | "client" :: rest => clientOp rest
   | "data" :: rest => dataOp rest
   | "disk" :: rest => diskOp rest
   | "envelope" :: rest => envelopeOp rest
